@@ -20,6 +20,9 @@ def canonicalCtorMap : CtorMap :=
 def canonicalSugar : List (String × String) :=
   [("Eventually", "Until(True,x)"), ("Always", "Not(Eventually(Not(x)))"), ("Implies", "Or(Not(x),y)")]
 
+/-- the classes whose presence makes a requirement temporal (`is_temporal`, used by `has_temporal_operator`) -/
+def canonicalTemporal : List String := ["Always", "Eventually", "Next", "Until"]
+
 /-- apply an rv_ltl constructor to already-built operands -/
 def applyCtor (rv : String) (ops : List F) : Option F :=
   match rv, ops with
